@@ -86,6 +86,56 @@ func runC05(r *Run) {
 				}
 				r.check(wr[n], "pool-reset:"+n, r.fpos(f), "re-initialised on acquire/release",
 					n+" is not re-initialised when the pooled object changes hands: the next request observes the previous request's value")
+				if !wr[n] {
+					continue
+				}
+				// … on every path: one of the reset functions writes the field whatever else holds — a reset may be
+				// skipped only by a test of the field itself (`if c.redirect != nil { … }`), not by a configuration flag
+				// the value does not depend on
+				isWrite := func(in ssa.Instruction) bool {
+					switch x := in.(type) {
+					case *ssa.Store:
+						if fa, ok := x.Addr.(*ssa.FieldAddr); ok {
+							if fv := fieldVar(fa.X.Type(), fa.Field); fv != nil && fieldOwner(fv)+"."+fv.Name() == n {
+								return true
+							}
+						}
+					case *ssa.Call:
+						nm := calleeName(&x.Call)
+						if (strings.HasSuffix(nm, ").Reset") || strings.HasSuffix(nm, ").Release") || strings.HasSuffix(nm, ").reset") || strings.HasSuffix(nm, ").Clear")) && len(x.Call.Args) > 0 {
+							hit := false
+							dependsOn(x.Call.Args[0], func(v ssa.Value) bool {
+								if fv := fieldOfValue(v); fv != nil && fieldOwner(fv)+"."+fv.Name() == n {
+									hit = true
+								}
+								return hit
+							})
+							return hit
+						}
+					}
+					return false
+				}
+				always := false
+				for _, fn := range sp.fns {
+					rf := r.P.Func(sp.pkg, fn)
+					if rf == nil {
+						continue
+					}
+					cut := map[edge]bool{}
+					for _, br := range branchesIn(rf) {
+						if dependsOn(br.Info.Root, func(v ssa.Value) bool { return loadOfField(v, n) }) != nil {
+							cut[edge{br.If.Block(), 0}] = true
+							cut[edge{br.If.Block(), 1}] = true
+						}
+					}
+					ownRet := func(in ssa.Instruction) bool { _, ok := in.(*ssa.Return); return ok && in.Parent() == rf }
+					wrote := len(instrsWhere(rf, isWrite)) > 0
+					if _, hit := reach(entryOf(rf), ownRet, cut, isWrite); hit == nil && wrote {
+						always = true
+					}
+				}
+				r.check(always, "pool-reset:"+n+":on-every-path", r.fpos(f), "one of the reset functions writes the field on every path that does not test the field itself",
+					n+" is re-initialised only under a condition that has nothing to do with the field (a configuration flag): with the condition false the value of one request stays in the pooled object and is seen by the next")
 			}
 		}
 	})
